@@ -691,6 +691,7 @@ def run(tier: str, only=None) -> core.Result:
             continue
         out = explorer.explore(ref, cfgs, fidelity=True)
         sched.absorb(res, name, ref, out, cfgs)
+        sched.debug_pass(res, name, ref, cfgs, every=(40 if name == "event-stream-chunking" else 1))
     if not only or "conformance" in only:
         from . import c12_conf
 
